@@ -27,6 +27,7 @@ import (
 	"io"
 	"log"
 	"math"
+	"math/big"
 	"strconv"
 	"strings"
 	"time"
@@ -73,7 +74,59 @@ func kvInt(ws []string, k string) (int64, bool) {
 		return 0, false
 	}
 	n, err := strconv.ParseInt(v, 10, 64)
+	if err != nil && k == "now" && extremeClock != nil {
+		// a clock outside the int64 nanosecond range: tm() returns it, oracles use nowBig
+		return 0, true
+	}
 	return n, err == nil
+}
+
+// Clock values that do not fit int64 nanoseconds (the zero time.Time, year 1,
+// year 9999, time.Unix(1<<62, 0)) are written on the op line as decimal
+// nanoseconds all the same (the model computes with unbounded integers);
+// runOp turns them into a time.Time here.  nowBig is the instant of `now=` of
+// the op being executed, for oracles that must not overflow.
+var (
+	extremeClock *time.Time
+	nowBig       *big.Int
+)
+
+func setClock(ws []string) {
+	extremeClock, nowBig = nil, nil
+	v, ok := kvGet(ws, "now")
+	if !ok {
+		return
+	}
+	b, ok := new(big.Int).SetString(v, 10)
+	if !ok {
+		return
+	}
+	nowBig = b
+	if b.IsInt64() {
+		return
+	}
+	q, r := new(big.Int).DivMod(b, big.NewInt(1e9), new(big.Int))
+	if !q.IsInt64() {
+		nowBig = nil
+		return
+	}
+	t := time.Unix(q.Int64(), r.Int64())
+	if _, zero := kvGet(ws, "zero"); zero && t.Equal(time.Time{}) {
+		t = time.Time{}
+	}
+	extremeClock = &t
+}
+
+// inWindowBig: now - |w| < t < now + |w|, computed exactly.
+func inWindowBig(t, w int64) bool {
+	if nowBig == nil {
+		return false
+	}
+	aw := new(big.Int).Abs(big.NewInt(w))
+	tb := big.NewInt(t)
+	lo := new(big.Int).Sub(nowBig, aw)
+	hi := new(big.Int).Add(nowBig, aw)
+	return lo.Cmp(tb) < 0 && tb.Cmp(hi) < 0
 }
 
 // curRep selects how the clock value of the op being executed is represented
@@ -87,7 +140,12 @@ var zone0530 = time.FixedZone("+0530", 5*3600+1800)
 const nReps = 6
 
 // tm is the instant `ns` nanoseconds after the Unix epoch in the current representation.
-func tm(ns int64) time.Time { return tmRep(ns, curRep) }
+func tm(ns int64) time.Time {
+	if extremeClock != nil {
+		return *extremeClock
+	}
+	return tmRep(ns, curRep)
+}
 
 func tmRep(ns int64, rep int) time.Time {
 	t := time.Unix(0, ns)
@@ -745,6 +803,7 @@ func (c *ctx) runOp(line string) (out string) {
 	// a Go panic in the code under test is an observation, not the end of the run
 	defer func() {
 		curRep = 0
+		extremeClock = nil
 		if r := recover(); r != nil {
 			w := strings.Fields(line + " x")[0]
 			c.rep.Fail("panic-"+w, fmt.Sprintf("the implementation panicked: %v", r), []string{line})
@@ -754,6 +813,7 @@ func (c *ctx) runOp(line string) (out string) {
 	ws := strings.Fields(line)
 	rep := repOf(ws)
 	curRep = rep
+	setClock(ws)
 	out = c.runOp1(line)
 	_, poked := kvGet(ws, "poke")
 	if poked && len(ws) > 0 && ws[0] != "pc" {
@@ -1007,8 +1067,8 @@ func (c *ctx) runOp1(line string) string {
 				c.rep.Fail("timetoken-malformed-accepted", "TimeSigner.Check accepted a text that is not hex of 8+32 bytes", L)
 			} else {
 				tt := int64(binary.LittleEndian.Uint64(bs[:8]))
-				if !(now-absI(w) < tt && tt < now+absI(w)) {
-					c.rep.Fail("timetoken-outside-window", fmt.Sprintf("token time %d accepted at %d with window %d", tt, now, w), L)
+				if !inWindowBig(tt, w) {
+					c.rep.Fail("timetoken-outside-window", fmt.Sprintf("token time %d accepted at %s with window %d", tt, nowBig, w), L)
 				}
 				if canon := signer.New(k).SignHex(bs[:8]); canon != string(t) {
 					c.rep.Fail("timetoken-"+classifyHex(string(t), canon)+"-accepted",
@@ -1019,7 +1079,7 @@ func (c *ctx) runOp1(line string) string {
 		}
 		if body := genuineHex(k, t); len(body) == 8 {
 			tt := int64(binary.LittleEndian.Uint64(body))
-			if now-absI(w) < tt && tt < now+absI(w) {
+			if inWindowBig(tt, w) {
 				c.rep.Fail("timetoken-genuine-refused", "TimeSigner.Check refused a genuine token strictly inside the window (the other direction of the iff)", L)
 			}
 		}
@@ -1043,8 +1103,8 @@ func (c *ctx) runOp1(line string) string {
 				c.rep.Fail("rsatime-short-accepted", "block with less than 8 data bytes accepted", L)
 			} else {
 				tt := int64(binary.LittleEndian.Uint64(data[:8]))
-				if !(now-absI(w) < tt && tt < now+absI(w)) {
-					c.rep.Fail("rsatime-outside-window", fmt.Sprintf("block time %d accepted at %d with window %d", tt, now, w), L)
+				if !inWindowBig(tt, w) {
+					c.rep.Fail("rsatime-outside-window", fmt.Sprintf("block time %d accepted at %s with window %d", tt, nowBig, w), L)
 				}
 				h := sha256.Sum256(data)
 				if !bytes.Equal(h[:], hash) || !bytes.Equal(sig, rsaSign(key, data)) {
